@@ -529,6 +529,52 @@ func lsFamilies(c *eng.Ctx, sub string, run func(lsCase, *eng.Ctx) *eng.Fail, re
 	}
 	c.Subspace("family-images", c.Evals()-before, false, fmt.Sprintf("sizes %v x comps x P{2,7,8,9,12,15,16} x 8 structured contents (incl. long runs with rare interruptions: high run index)", sizes))
 
+	// two-regime images: many lines of a mid-amplitude two-level texture (drives contexts into saturation of the bias
+	// correction C and produces kilobytes of scan data without a 0xFF byte), then noise (the bias reverses, 0xFF bytes and
+	// their stuffed bits come back); plus plain noise at sizes where tens of thousands of samples share the contexts
+	type rj struct{ w, h, p, near, k int }
+	var rjs []rj
+	for _, sz := range [][2]int{{32, 56}, {128, 128}, {256, 174}} {
+		for _, p := range []int{8, 12, 16} {
+			for _, near := range nears(p) {
+				for k := 0; k < 3; k++ {
+					rjs = append(rjs, rj{sz[0], sz[1], p, near, k})
+				}
+			}
+		}
+	}
+	before = c.Evals()
+	done = c.Par(len(rjs), func(i int) {
+		j := rjs[i]
+		max := 1<<uint(j.p) - 1
+		a, b := max/8, max/8+max/10
+		if j.k == 1 {
+			a, b = max/4, max/4+max/14
+		}
+		l := eng.NewLCG(j.p*13 + j.w + j.k)
+		s := make([]int, j.w*j.h)
+		for y := 0; y < j.h; y++ {
+			for x := 0; x < j.w; x++ {
+				v := int(l.Next()) & max
+				if j.k < 2 && y < j.h*17/20 {
+					v = a
+					if (x+y)%2 == 1 {
+						v = b
+					}
+				}
+				s[y*j.w+x] = v
+			}
+		}
+		cs := lsCase{W: j.w, H: j.h, C: 1, P: j.p, Near: j.near, S: s}
+		c.Eval(1)
+		if f := eng.Guard(func() *eng.Fail { return run(cs, c) }); f != nil {
+			eng.Recheck(c, sub, cs, reg)
+		}
+	})
+	if !done {
+		c.Capped("two-regime images cut by deadline")
+	}
+	c.Subspace("two-regime-images", c.Evals()-before, done, "sizes {32x56,128x128,256x174} x P {8,12,16} x NEAR list x {two-level texture (2 amplitudes) for 85% of the lines then noise, noise}: saturated bias correction followed by a reversal, long scans without 0xFF followed by ordinary data")
 	// run-index ladder: the run-length order J[RUNindex] climbs one step per completed run segment and stops at 31;
 	// 65 820 consecutive run samples with a line at least 32 768 wide are needed to reach the top and try one more step
 	type lj struct{ w, h, c, p, near, k int }
@@ -579,6 +625,90 @@ func lsFamilies(c *eng.Ctx, sub string, run func(lsCase, *eng.Ctx) *eng.Fail, re
 
 func zeroNear(int) []int { return []int{0} }
 
+// golombCodeCase: the limited-length Golomb code of T.87 A.5.3 for one (qbpp, LIMIT, k) over a range of mapped values.
+type golombCodeCase struct {
+	Qbpp, Limit, K, Lo, Hi int
+}
+
+var golombCodeFn = eng.Reg("C03.golomb-code", func(a golombCodeCase) *eng.Fail {
+	for v := a.Lo; v <= a.Hi; v++ {
+		var buf bytes.Buffer
+		gw := lsl.NewGolombWriter(&buf)
+		gw.WriteBits(1, 1) // one leading bit so that the code does not start byte-aligned
+		if err := gw.EncodeMappedValue(a.K, v, a.Limit, a.Qbpp); err != nil {
+			return eng.Failf("golomb-encode-error", "%+v value %d: %v", a, v, err)
+		}
+		gw.WriteBits(0x2A, 6)
+		gw.Flush()
+		gr := lsl.NewGolombReader(bytes.NewReader(append(append([]byte{}, buf.Bytes()...), 0xFF, 0xD9)))
+		if b, err := gr.ReadBit(); err != nil || b != 1 {
+			return eng.Failf("golomb-read-error", "%+v value %d: leading bit %d %v", a, v, b, err)
+		}
+		got, err := gr.DecodeValue(a.K, a.Limit, a.Qbpp)
+		if err != nil {
+			return eng.Failf("golomb-decode-error", "%+v value %d: %v (%x)", a, v, err, buf.Bytes())
+		}
+		if got != v {
+			return eng.Failf("golomb-code-mismatch", "qbpp %d LIMIT %d k %d: mapped value %d decodes as %d (%x)", a.Qbpp, a.Limit, a.K, v, got, buf.Bytes())
+		}
+		tail, err := gr.ReadBits(6)
+		if err != nil || tail != 0x2A {
+			return eng.Failf("golomb-code-length", "qbpp %d LIMIT %d k %d value %d: the 6 bits after the code read %x err %v (code length differs between writer and reader)", a.Qbpp, a.Limit, a.K, v, tail, err)
+		}
+	}
+	return nil
+})
+
+// golombCodeSpace: every precision 2..16 (qbpp, LIMIT from the standard's formulas, also the run-interruption limits
+// LIMIT - J - 1 for J in {0,1,2,3,4,8,15}) x every k 0..qbpp x every mapped value 0..2^qbpp (values up to RANGE occur for run
+// interruptions) for P <= 12, boundary values above.
+func golombCodeSpace(c *eng.Ctx) {
+	before := c.Evals()
+	type gj struct{ qbpp, limit, k int }
+	var gjs []gj
+	for p := 2; p <= 16; p++ {
+		bpp := p
+		if bpp < 2 {
+			bpp = 2
+		}
+		lim := 2 * (bpp + 8)
+		if bpp > 8 {
+			lim = 4 * bpp
+		}
+		for _, j := range []int{-1, 0, 1, 2, 3, 4, 8, 15} {
+			l := lim
+			if j >= 0 {
+				l = lim - j - 1
+			}
+			for k := 0; k <= p; k++ {
+				gjs = append(gjs, gj{p, l, k})
+			}
+		}
+	}
+	c.Par(len(gjs), func(i int) {
+		j := gjs[i]
+		top := 1 << uint(j.qbpp)
+		if j.qbpp <= 12 {
+			eng.Check(c, "C03.golomb-code", golombCodeCase{j.qbpp, j.limit, j.k, 0, top}, golombCodeFn)
+			return
+		}
+		esc := (j.limit - j.qbpp - 1) << uint(j.k)
+		for _, m := range []int{0, esc, top / 2, top} {
+			lo, hi := m-40, m+40
+			if lo < 0 {
+				lo = 0
+			}
+			if hi > top {
+				hi = top
+			}
+			if lo <= hi {
+				eng.Check(c, "C03.golomb-code", golombCodeCase{j.qbpp, j.limit, j.k, lo, hi}, golombCodeFn)
+			}
+		}
+	})
+	c.Subspace("golomb-code", c.Evals()-before, true, "GolombWriter.EncodeMappedValue / GolombReader.DecodeValue for qbpp 2..16 x LIMIT {regular, run-interruption with J in {0,1,2,3,4,8,15}} x k 0..qbpp x every mapped value 0..2^qbpp (qbpp > 12: 40 values around 0, the escape threshold, 2^(qbpp-1) and 2^qbpp): same value and same code length on both sides")
+}
+
 var golombChunkFn = eng.Reg("C03.golomb-writer", func(a chunkCase) *eng.Fail { return chunkFn(a) })
 
 func c03(c *eng.Ctx) {
@@ -587,6 +717,7 @@ func c03(c *eng.Ctx) {
 	lsRunBlocks(c, "C03.roundtrip", lsBlocksLossless(c), lsLossless, lsLosslessFn, "small-images", "full product of contents over the block alphabet")
 	lsFamilies(c, "C03.roundtrip", lsLossless, lsLosslessFn, zeroNear)
 	// the Golomb bit writer at every accumulator fill level (component level; shared with C16)
+	golombCodeSpace(c)
 	gb := c.Evals()
 	chunkSpace(c, "C03.golomb-writer", 1, 2, golombChunkFn)
 	c.Subspace("golomb-writer-chunked", c.Evals()-gb, c.Thorough(), "GolombWriter: "+chunkSpaceDesc)
@@ -595,9 +726,61 @@ func c03(c *eng.Ctx) {
 	c.Sample(map[string]any{"W": 3, "H": 3, "C": 1, "P": 2, "S": []int{0, 3, 0, 3, 0, 3, 3, 3, 0}})
 }
 
+// traitsCase: the quantise / reconstruct arithmetic of one (P, NEAR) pair for one prediction and a range of samples.
+type traitsCase struct {
+	P, Near, Px, Lo, Hi int
+}
+
+var traitsFn = eng.Reg("C07.quantiser", func(a traitsCase) *eng.Fail {
+	max := 1<<uint(a.P) - 1
+	t := lsl.NewTraits(max, a.Near, 64)
+	for x := a.Lo; x <= a.Hi; x++ {
+		e := t.ComputeErrorValue(x - a.Px)
+		r := t.ComputeReconstructedSample(a.Px, e)
+		d := r - x
+		if d < 0 {
+			d = -d
+		}
+		if d > a.Near || r < 0 || r > max {
+			return eng.Failf("quantiser-exceeds-near", "P=%d NEAR=%d prediction %d sample %d: error index %d reconstructs %d (|diff| %d)", a.P, a.Near, a.Px, x, e, r, d)
+		}
+		// decoder side: the same error index must give the same sample from the same prediction (trivially true here, the
+		// function is shared); and the index must fit the code range
+		if e < -(t.Range+1)/2 || e > (t.Range+1)/2 {
+			return eng.Failf("quantiser-index-out-of-range", "P=%d NEAR=%d prediction %d sample %d: error index %d outside +-RANGE/2 (RANGE %d)", a.P, a.Near, a.Px, x, e, t.Range)
+		}
+	}
+	return nil
+})
+
+// traitsSpace: every sample value against 7 predictions for every legal (P, NEAR): |reconstruct(quantise(x - Px)) - x| <= NEAR.
+func traitsSpace(c *eng.Ctx) {
+	before := c.Evals()
+	type tj struct{ p, near int }
+	var tjs []tj
+	for p := 2; p <= 16; p++ {
+		max := 1<<uint(p) - 1
+		for near := 0; near <= 255 && near <= max/2; near++ {
+			if c.Quick() && p >= 15 && near > 4 && near < 128 && near%4 != 1 {
+				continue
+			}
+			tjs = append(tjs, tj{p, near})
+		}
+	}
+	c.Par(len(tjs), func(i int) {
+		j := tjs[i]
+		max := 1<<uint(j.p) - 1
+		for _, px := range []int{0, 1, j.near, max / 2, max - j.near, max - 1, max} {
+			eng.Check(c, "C07.quantiser", traitsCase{j.p, j.near, px, 0, max}, traitsFn)
+		}
+	})
+	c.Subspace("quantiser-arithmetic", c.Evals()-before, c.Thorough(), "Traits.ComputeErrorValue / ComputeReconstructedSample for every legal (P, NEAR) (quick: NEAR thinned between 5 and 127 at P >= 15) x predictions {0,1,NEAR,mid,MAX-NEAR,MAX-1,MAX} x every sample value 0..MAX: reconstruction within NEAR and inside the range, error index inside +-RANGE/2")
+}
+
 func c07(c *eng.Ctx) {
 	c.Rule("E1: every (P, NEAR) pair with P in 2..16 and NEAR in 0..min(255,MAXVAL/2) x every image of <= 3 samples (quick) / <= 4 (thorough) over the NEAR-relative alphabet {0,NEAR,NEAR+1,2NEAR+1,MAX-NEAR-1,MAX-NEAR,MAX,mid}; boundary NEAR values with <= 4 samples and 3 components; macro rows with ramps of step 2NEAR+1. non-trivial = stream has a run interruption or escape code")
 	c.Assume("samples occupy the low P bits of the container")
+	traitsSpace(c)
 	lsRunBlocks(c, "C07.bound", lsBlocksNear(c, true), lsNear, lsNearFn, "all-near-values", "every NEAR for every P, full product of contents over the NEAR-relative alphabet")
 	lsRunBlocks(c, "C07.bound", lsBlocksNear(c, false), lsNear, lsNearFn, "boundary-near-values", "NEAR in {0,1,2,3,max/2,max-1,max} (thorough: all), <= 4 samples, 1 and 3 components")
 	nl := func(p int) []int {
